@@ -609,14 +609,34 @@ theorem forM'_any {α : Type} (f : α → W Unit) (w w' : World)
     · rw [h]; exact forM'_any f w w' hf hc rest
     · rw [h]; rfl
 
-/-- the pre-validation of the typed paths reads the registry and the pool only -/
+/-- the pre-validation (of every path) reads the registry and the pool only -/
 theorem preCheck_any (p : Path) (ids : List Comp) (rels : List RelID) (w w' : World)
     (hk : w'.kinds = w.kinds) (hp : w'.pool = w.pool) :
     preCheck p ids rels w' = (preCheck p ids rels w).mapS fun _ => w' := by
   have h1 : ∀ (c : Comp), w'.isRelComp c = w.isRelComp c := fun c => by simp only [isRelComp, hk]
   have h2 : ∀ (t : Ent), w'.alive t = w.alive t := fun t => by simp only [World.alive, hp]
   cases p with
-  | unsafe_ => rfl
+  | unsafe_ =>
+    refine forM'_any _ w w' (fun r => ?_) (fun r => ?_) rels
+    · simp only [bind, M.bind, checkRelationTarget, checkRelationComponent, M.assert, h2]
+      by_cases c1 : (!r.target.isZero && !w.alive r.target) = true
+      · simp only [c1, if_true]; rfl
+      · simp only [c1, Bool.false_eq_true, if_false, h1]
+        by_cases c2 : w.isRelComp r.comp = true
+        · simp only [c2, if_true]
+          by_cases c3 : (Mask.ofList ids).get r.comp = true
+          · simp only [c3, if_true]; rfl
+          · simp only [c3, Bool.false_eq_true, if_false]; rfl
+        · simp only [c2, Bool.false_eq_true, if_false]; rfl
+    · simp only [bind, M.bind]
+      rcases checkRelationTarget_cases r.target w with h | h
+      · rcases checkRelationComponent_cases r.comp w with h2 | h2
+        · simp only [h, h2, M.assert]
+          split
+          · exact Or.inl rfl
+          · exact Or.inr ⟨_, rfl⟩
+        · simp only [h, h2]; exact Or.inr ⟨_, rfl⟩
+      · simp only [h]; exact Or.inr ⟨_, rfl⟩
   | map1 =>
     refine forM'_any _ w w' (fun r => ?_) (fun r => ?_) rels
     · simp only [bind, M.bind, checkRelationTarget, checkRelationComponent, h2]
@@ -669,7 +689,7 @@ theorem opSetRelations_transfer_panic (run run0 : ProbeRunner) (p : Path) (e : E
     (mapperIds : List Comp) (rels : List RelID) (w : World) {k : PanicKind} {s : World}
     (h0 : opSetRelations run0 p e mapperIds rels w.noObs = .panic k s) :
     opSetRelations run p e mapperIds rels w = .panic k (s.reframe w.obs w.log w.locks) := by
-  rcases preCheck_of_noObs p mapperIds rels w with ⟨h1, h2⟩ | ⟨k', h1, h2⟩
+  rcases preCheck_of_noObs p.setRelCheck mapperIds rels w with ⟨h1, h2⟩ | ⟨k', h1, h2⟩
   · simp only [opSetRelations, bind, M.bind, h1] at h0
     simp only [opSetRelations, bind, M.bind, h2]
     exact setRelationsCore_transfer_panic run run0 e rels w h0
@@ -696,7 +716,7 @@ theorem opSetRelations_transfer_ok (hro : ReadOnly run S rec) (run0 : ProbeRunne
         opSetRelations run p e mapperIds rels w = .ok ()
           (setRelResult rec w w1 w0 e (Mask.ofList (changedComps (w.tbl (w.index e.id).1) rels))
             (w1.arch (w.tbl (w.index e.id).1).arch).mask l1 l2))) := by
-  rcases preCheck_of_noObs p mapperIds rels w with ⟨h1, h2⟩ | ⟨k', h1, h2⟩
+  rcases preCheck_of_noObs p.setRelCheck mapperIds rels w with ⟨h1, h2⟩ | ⟨k', h1, h2⟩
   · simp only [opSetRelations, bind, M.bind, h1] at h0
     simp only [opSetRelations, bind, M.bind, h2]
     exact ⟨h0, setRelationsCore_transfer_ok hro run0 e rels w hs hok hL h0⟩
